@@ -197,27 +197,31 @@ def asyncClose (ser : Bool) (s : St) (f : OutFrame) (k : Cont) : St :=
     | .user cb => push s [.invoke cb .eof false]
     | _ => s
 
-/-- `handleFrame` (with verifyFrame, handleControlFrame, handleDataFrame): the new state and whether it failed. -/
-def handleFrame (s : St) (f : InFrame) : St × Bool :=
-  let n := s.rx
-  let s := { s with rx := s.rx + 1 }
-  let r : St × Bool :=
-    if f.viol then (s, true)
+/-- `handleFrame` (with verifyFrame, handleControlFrame, handleDataFrame) for a stream in state `ws` and the `n`-th
+incoming frame: the new state, the frames it queues (prepareWrite / prepareClose) and whether it reports an error. -/
+def handleOutcome (ws : WsState) (n : Nat) (f : InFrame) : WsState × List OutFrame × Bool :=
+  let r : WsState × List OutFrame × Bool :=
+    if f.viol then (ws, [], true)                                  -- verifyFrame
     else if f.op.isControl then
-      if !f.fin || f.len > 125 then (s, true)
+      if !f.fin || f.len > 125 then (ws, [], true)                 -- ErrInvalidControlFrame / ErrControlFrameTooBig
       else match f.op with
-        | .ping => (if s.ws = .active then prepare s ⟨.pong n, 6 + f.len⟩ else s, false)
+        | .ping => (ws, if ws = .active then [⟨.pong n, 6 + f.len⟩] else [], false)
         | .close =>
-          match s.ws with
-          | .active => (prepare { s with ws := .closedByPeer } ⟨.closeReply n, if f.len ≥ 2 && f.closeOk then 6 + f.len else 8⟩, false)
-          | .closedByUs => ({ s with ws := .closeAcked }, false)
-          | _ => (s, false)
-        | _ => (s, false)
-    else if f.op = .reserved then (s, true)
-    else (s, false)
-  if r.2 then
-    (if r.1.ws = .active then { prepare r.1 ⟨.closeViolation n, 8⟩ with ws := .closedByUs } else { r.1 with ws := .closedByUs }, true)
+          match ws with
+          | .active => (.closedByPeer, [⟨.closeReply n, if f.len ≥ 2 && f.closeOk then 6 + f.len else 8⟩], false)
+          | .closedByUs => (.closeAcked, [], false)
+          | _ => (ws, [], false)
+        | _ => (ws, [], false)
+    else if f.op = .reserved then (ws, [], true)                   -- ErrReservedOpcode / unknown control opcode
+    else (ws, [], false)
+  if r.2.2 then
+    -- `if err != nil { if s.state == StateActive { prepareClose(1002) }; s.state = StateClosedByUs }`
+    (.closedByUs, if r.1 = .active then r.2.1 ++ [⟨.closeViolation n, 8⟩] else r.2.1, true)
   else r
+
+def handleFrame (s : St) (f : InFrame) : St × Bool :=
+  let o := handleOutcome s.ws s.rx f
+  ({ s with rx := s.rx + 1, ws := o.1, pending := s.pending ++ o.2.1, submitted := s.submitted ++ o.2.1 }, o.2.2)
 
 /-- The closure of `asyncNextFrame` for a decoded frame, followed by the reader's own callback. -/
 def onFrame (ser : Bool) (s : St) (cb : CbId) (rk : RKind) (f : InFrame) : St :=
